@@ -18,6 +18,13 @@ P = {
          "Coq proof (Kahn elimination <-> acyclic, induction + pigeonhole) + differential correspondence evaluated by vm_compute",
          "DESIGN.md section 5, C14"),
 }
+# per-property fragments: tools/manifest.d/Cxx.json = {"claimed": true, "text": ..., "note": ..., "technique": ..., "ref": ...}
+MD = os.path.join(HERE, "tools", "manifest.d")
+if os.path.isdir(MD):
+    for f in sorted(os.listdir(MD)):
+        if f.endswith(".json"):
+            d = json.load(open(os.path.join(MD, f)))
+            P[f[:-5]] = (d.get("claimed", True), d["text"], d["note"], d["technique"], d.get("ref", "DESIGN.md section 5, " + f[:-5]))
 ALL = ["C%02d" % i for i in range(1, 21)]
 checks, na = [], []
 for pid in ALL:
@@ -52,4 +59,9 @@ m = {
  "notes": "See DESIGN.md. known_findings.json lists recorded genuine defects (state known) and repaired ones (state fixed).",
 }
 json.dump(m, open(os.path.join(HERE, "MANIFEST.json"), "w"), indent=1)
+# merge known-finding fragments into the single committed file
+import sys
+sys.path.insert(0, os.path.join(HERE, "tools"))
+import vlib
+json.dump(vlib.load_known(), open(os.path.join(HERE, "known_findings.json"), "w"), indent=1)
 print("claimed:", [c["property_id"] for c in checks])
